@@ -13,31 +13,50 @@
    graph into the real main(fd) and compares the observable outputs (`cleaned`, `reported`).                 *)
 EXTENDS Naturals, Sequences, FiniteSets, TLC
 
-CONSTANTS Types,       \* resource types known to the tracker: {"folder", "file", "semlock"}
-          Lines,       \* the request alphabet: a finite set of field tuples
-          MaxCount,    \* state constraint: counts explored up to this value
-          BadBytes,    \* marker field for undecodable bytes
-          FailModes    \* subset of BOOLEAN: whether, in a run, every destruction attempt fails (the resources were removed
-                       \* behind the tracker's back: unlink raises); no transition depends on it -- a failed destruction
-                       \* is reported as a warning and otherwise changes nothing
+CONSTANTS
+  \* @type: Set(Str);
+  Types,       \* resource types known to the tracker: {"folder", "file", "semlock"}
+  \* @type: Set(Seq(Str));
+  Lines,       \* the request alphabet: a finite set of field tuples
+  \* @type: Int;
+  MaxCount,    \* state constraint: counts explored up to this value
+  \* @type: Str;
+  BadBytes,    \* marker field for undecodable bytes
+  \* @type: Set(Bool);
+  FailModes    \* subset of BOOLEAN: whether, in a run, every destruction attempt fails (the resources were removed
+               \* behind the tracker's back: unlink raises); no transition depends on it -- a failed destruction
+               \* is reported as a warning and otherwise changes nothing
 
-VARIABLES reg,         \* [<<type, name>> -> Nat], 0 = not in the registry
-          alive,       \* the tracker is still consuming requests
-          cleaned,     \* output of the last step: <<set cleaned in phase 1, set cleaned in phase 2>> of <<type, name>>
-          reported,    \* output of the last step: the line was reported as an error and skipped
-          bal          \* ghost (property wording): registrations minus maybe_unlinks since the last unregister;
-                       \* 0 = not counted (never registered, destroyed, or unregistered)
-VARIABLE fail          \* configuration of the run, see FailModes
-VARIABLE last          \* history: the line consumed by the last step (<<>> initially, <<"EOF">> for the sweep); hidden by View
+VARIABLES
+  \* @type: <<Str, Seq(Str)>> -> Int;
+  reg,         \* [<<type, name>> -> Nat], 0 = not in the registry
+  \* @type: Bool;
+  alive,       \* the tracker is still consuming requests
+  \* @type: <<Set(<<Str, Seq(Str)>>), Set(<<Str, Seq(Str)>>)>>;
+  cleaned,     \* output of the last step: <<set cleaned in phase 1, set cleaned in phase 2>> of <<type, name>>
+  \* @type: Bool;
+  reported,    \* output of the last step: the line was reported as an error and skipped
+  \* @type: <<Str, Seq(Str)>> -> Int;
+  bal,         \* ghost (property wording): registrations minus maybe_unlinks since the last unregister;
+               \* 0 = not counted (never registered, destroyed, or unregistered)
+  \* @type: Bool;
+  fail,        \* configuration of the run, see FailModes
+  \* @type: Seq(Str);
+  last         \* history: the line consumed by the last step (<<>> initially, <<"EOF">> for the sweep); hidden by View
 vars == <<reg, alive, cleaned, reported, bal, fail, last>>
 View == <<reg, alive, cleaned, reported, bal, fail>>
 
+\* @type: (Seq(Str)) => Str;
 Cmd(ln)   == ln[1]
+\* @type: (Seq(Str)) => Str;
 RType(ln) == ln[Len(ln)]
+\* @type: (Seq(Str)) => Seq(Str);
 Name(ln)  == IF Len(ln) < 3 THEN <<"">> ELSE SubSeq(ln, 2, Len(ln) - 1)   \* ":".join(fields[1:-1]); [] and [""] both give ""
-Decodable(ln) == \A i \in 1..Len(ln) : ln[i] # BadBytes
+\* @type: (Seq(Str)) => Bool;
+Decodable(ln) == \A i \in DOMAIN ln : ln[i] # BadBytes
 Names == {Name(ln) : ln \in Lines}
 Keys  == Types \X Names
+\* @type: <<Set(<<Str, Seq(Str)>>), Set(<<Str, Seq(Str)>>)>>;
 None2 == <<{}, {}>>
 
 Init == /\ reg = [k \in Keys |-> 0] /\ alive = TRUE /\ cleaned = None2 /\ reported = FALSE
